@@ -498,6 +498,7 @@ func (h *pkH) exec(line string) string {
 		pkt := channeltypes.NewPacket(data.GetBytes(), seq, pkPort, c.Cp, pkPort, c.Hub, clienttypes.NewHeight(1, 1000000), 0)
 		h.noteRecv(uint64(ci), seq)
 		res := fx.ibcRecv(pkt, atou(m["ph"]), h.relayer)
+		h.lastErr = pkLastRecvErr
 		if strings.HasPrefix(m["memo"], "fw:") && res == "async" {
 			// the forwarded packet left the hub from inside the callback
 			if fp, ok := packetFromEvents(pkLastRecvEvents); ok {
@@ -565,6 +566,7 @@ func (h *pkH) exec(line string) string {
 		} else {
 			r = fx.ibcTimeoutCls(pkt, atou(m["ph"]), h.relayer)
 		}
+		h.lastErr = pkLastRecvErr
 		return r
 	case "timeoutclose":
 		// MsgTimeoutOnClose for a packet the hub sent (the counterparty's channel end is closed)
@@ -816,6 +818,7 @@ func (f *Fix) ibcAckCls(pkt channeltypes.Packet, ack []byte, ph uint64, relayer 
 		ctx = f.proofCtx(ctx, commontypes.RollappPacket_ON_ACK, pkt, ph)
 		return f.App.TransferStack.OnAcknowledgementPacket(ctx, pkt, ack, relayer)
 	})
+	pkLastRecvErr = err
 	return pkClass(err)
 }
 
@@ -829,6 +832,7 @@ func (f *Fix) ibcTimeoutCls(pkt channeltypes.Packet, ph uint64, relayer sdk.AccA
 		ctx = f.proofCtx(ctx, commontypes.RollappPacket_ON_TIMEOUT, pkt, ph)
 		return f.App.TransferStack.OnTimeoutPacket(ctx, pkt, relayer)
 	})
+	pkLastRecvErr = err
 	return pkClass(err)
 }
 
